@@ -5,7 +5,7 @@
    wire value (vectors as lists, optional as VNone/VSome, union as arm index + value; counters are
    not members of the C++ class: the generated code writes x.<array>.size()). Definitions only. *)
 From Coq Require Import ZArith List Bool.
-From Prophy Require Import Bytes Schema Src PcModel.
+From Prophy Require Import Bytes Schema Layout Wire Src PcModel.
 Import ListNotations.
 Local Open Scope Z_scope.
 
@@ -45,3 +45,86 @@ Fixpoint cpp_size (t : ty) (v : value) {struct t} : Z :=
       cpp_size_fields cpp_size fs (map (pc_member pc_size pc_align pc_kind) fs) (pc_paddings fs) vs 0
   | _, _ => pc_size t                                  (* generate_union_get_byte_size: return byte_size *)
   end.
+
+(* ---- encode<E>(): generate_struct_encode / generate_union_encode over the run-time helpers of
+   detail/encoder.hpp, as the list of segments written from absolute position [pos] of a zeroed
+   buffer whose start is 8-aligned (`pos = pos + n` and `align<N>(pos)` skip bytes: SPad).
+   Counter members are written as x.<array>.size(); in the value tree that is the counter member
+   itself (equal under [wt]'s counts_ok; over-full limited vectors are outside this model).
+   alignment<T>::value is modelled by the wire alignment pc_align T: true for every generated class
+   that holds no std::vector (the exception is the known finding KF-A). ---- *)
+Section CppEnc.
+  Variable layV : ty -> value -> Z -> list seg.    (* x.encode<E>(data) of a nested composite object *)
+
+  (* do_encode<E>(pos, x) for one object; returns the segments from pos to the returned pointer *)
+  Definition cpp_obj (t : ty) (v : value) (pos : Z) : list seg :=
+    match t, v with
+    | TScalar k, VInt z => [SInt (pc_builtin_size k) z]
+    | TByte, VInt z => [SInt pc_byte_size z]
+    | TEnum _, VInt z => [SInt pc_enum_size z]
+    | (TStruct _ | TUnion _), _ =>
+        let b := layV t v pos in
+        if pc_kind t =? K_FIXED
+        then b ++ [SPad (pc_size t - segslen b)]       (* return data + T::encoded_byte_size *)
+        else b                                          (* return data + x.encode<E>(data) *)
+    | _, _ => []
+    end.
+
+  (* do_encode<E>(pos, x.data(), n) *)
+  Definition cpp_objs (t : ty) : list value -> Z -> list seg :=
+    fix go (xs : list value) (pos : Z) : list seg :=
+      match xs with
+      | [] => []
+      | x :: xr => let b := cpp_obj t x pos in b ++ go xr (pos + segslen b)
+      end.
+
+  (* one member, before its padding statement *)
+  Definition cpp_member_segs (f : field) (m : pcm) (v : value) (pos : Z) : list seg :=
+    match fst f, v with
+    | FPlain, _ => cpp_obj (snd f) v pos
+    | FOpt, VSome x =>
+        SInt 4 1 :: SPad (pm_align m - 4) :: cpp_obj (snd f) x (pos + pm_align m)
+    | FOpt, _ =>
+        [SInt 4 0; SPad (pm_align m - 4); SPad (match snd f with TByte => pc_byte_size | t => pc_size t end)]
+    | FFixed _, VList xs => cpp_objs (snd f) xs pos
+    | FBound _, VList xs => cpp_objs (snd f) xs pos
+    | FGreedy, VList xs => cpp_objs (snd f) xs pos
+    | FLimited _ _, VList xs =>
+        let b := cpp_objs (snd f) xs pos in b ++ [SPad (pm_size m - segslen b)]        (* pos = pos + m.byte_size *)
+    | _, _ => []
+    end.
+
+  Fixpoint cpp_fields_segs (fs : list field) (ms : list pcm) (ps : list Z) (vs : list value) (pos : Z) : list seg :=
+    match fs, ms, ps, vs with
+    | f :: fr, m :: mr, p :: pr, v :: vr =>
+        let b := cpp_member_segs f m v pos in
+        let pos1 := pos + segslen b in
+        let padn := if p <? 0 then cpp_align (- p) pos1 - pos1 else p in       (* align<-p>(pos) / pos + p *)
+        b ++ SPad padn :: cpp_fields_segs fr mr pr vr (pos1 + padn)
+    | _, _, _, _ => []
+    end.
+
+  Fixpoint cpp_arm_segs (arms : list (Z * ty)) (i : nat) (x : value) (pos : Z) : option (Z * list seg) :=
+    match arms, i with
+    | a :: _, O => Some (fst a, cpp_obj (snd a) x pos)
+    | _ :: r, S j => cpp_arm_segs r j x pos
+    | _, _ => None
+    end.
+End CppEnc.
+
+Fixpoint cpp_lay (t : ty) (v : value) (pos : Z) {struct t} : list seg :=
+  match t, v with
+  | TStruct fs, VStruct vs =>
+      cpp_fields_segs cpp_lay fs (map (pc_member pc_size pc_align pc_kind) fs) (pc_paddings fs) vs pos
+  | TUnion arms, VUnion i x =>
+      let discpad := if pc_disc_size <? pc_align t then pc_align t - pc_disc_size else 0 in
+      match cpp_arm_segs cpp_lay arms i x (pos + pc_disc_size + discpad) with
+      | Some (d, b) =>
+          (* the arm is written without advancing pos; then pos = pos + byte_size - DISC_SIZE - discpad *)
+          SInt pc_disc_size d :: SPad discpad :: b ++ [SPad (pc_size t - pc_disc_size - discpad - segslen b)]
+      | None => []
+      end
+  | _, _ => []
+  end.
+
+Definition cpp_encode (e : endian) (t : ty) (v : value) : bytes := render e (cpp_lay t v 0).
